@@ -19,7 +19,7 @@ PROPERTY = "C26"
 LEVEL = "exploration"
 BUDGET = {"quick": 2400, "thorough": 150000}
 CHUNK = 20
-RUN_TIMEOUT_S = 180
+RUN_TIMEOUT_S = 1500
 RULE = (
     "seeded histories (10..120 ops) per cached object kind {RigidBody, Sphere2Sphere (rigid bodies / point masses), "
     "Cosserat rod (3 interpolations x mixed/displacement-based x constrained), Mesh1D.eval_basis}; ops = evaluations "
